@@ -552,6 +552,25 @@ impl<'a> Trusted<RioTriple<'a>> {
             .flatten()
             .find(|iri| Iri::new(*iri).is_err())
     }
+
+    /// The first blank node identifier of this triple that is not a valid [`BnodeId`], if any
+    /// (to be checked by the adapters of back-ends whose blank node labels follow another grammar,
+    /// such as the XML names of `rdf:nodeID`, which may end with a dot).
+    pub fn invalid_bnode_id(&self) -> Option<&'a str> {
+        use rio_api::model::Subject;
+        let s = match self.0.subject {
+            Subject::BlankNode(b) => Some(b.id),
+            _ => None,
+        };
+        let o = match self.0.object {
+            RioTerm::BlankNode(b) => Some(b.id),
+            _ => None,
+        };
+        [s, o]
+            .into_iter()
+            .flatten()
+            .find(|id| BnodeId::new(*id).is_err())
+    }
 }
 
 impl<T> std::ops::Deref for Trusted<T> {
